@@ -1748,8 +1748,11 @@ class NondetInventory:
         ('time.', 'clock'), ('datetime.datetime.now', 'clock'), ('datetime.datetime.today', 'clock'), ('datetime.datetime.utcnow', 'clock'), ('datetime.date.today', 'clock'),
         ('inspect.stack', 'stack'), ('inspect.currentframe', 'stack'), ('sys._getframe', 'stack'),
         ('tempfile.', 'fs'), ('os.walk', 'fs'), ('os.listdir', 'fs'), ('os.scandir', 'fs'), ('glob.', 'fs'),
-        ('os.environ', 'env'), ('os.getenv', 'env'), ('sys.argv', 'env'), ('sys.stdout.isatty', 'env'), ('_curses.setupterm', 'env'), ('curses.', 'env'),
-        ('os.get_terminal_size', 'env'), ('os.cpu_count', 'cpu'), ('os.sched_getaffinity', 'cpu'), ('sched_getaffinity', 'cpu'),
+        ('os.environ', 'env'), ('os.getenv', 'env'), ('sys.argv', 'env'), ('_curses.setupterm', 'env'), ('curses.', 'env'),
+        ('sys.stdout.isatty', 'tty'), ('sys.stdout.encoding', 'tty'), ('sys.stdout.errors', 'tty'), ('sys.stdout.fileno', 'tty'), ('sys.stdout.buffer', 'tty'),
+        ('sys.stderr.isatty', 'tty'), ('sys.stdin.isatty', 'tty'), ('sys.__stdout__', 'tty'), ('os.isatty', 'tty'), ('os.ttyname', 'tty'),
+        ('os.get_terminal_size', 'tty'), ('shutil.get_terminal_size', 'tty'),
+        ('os.cpu_count', 'cpu'), ('os.sched_getaffinity', 'cpu'), ('sched_getaffinity', 'cpu'),
         ('os.getpid', 'ident'), ('os.getppid', 'ident'), ('threading.get_ident', 'ident'), ('id', 'ident'), ('hash', 'ident'),
         ('ipc.', 'tool'), ('subprocess.', 'tool'), ('ctypes.CDLL', 'tool'), ('os.popen', 'tool'), ('os.system', 'tool'),
         ('locale.', 'env'), ('getpass.', 'env'), ('socket.', 'env'), ('platform.', 'env'),
@@ -1788,7 +1791,7 @@ class NondetInventory:
                         continue
                 cat = None
                 for pat, c in self.PATTERNS:
-                    if d == pat or (pat.endswith('.') and d.startswith(pat)) or d.startswith(pat + '.') or (pat == 'sys.stdout.isatty' and d == pat):
+                    if d == pat or (pat.endswith('.') and d.startswith(pat)) or d.startswith(pat + '.') or False:
                         cat = c
                         break
                 if d.startswith('subprocess.') and d.split('.')[1] in ('DEVNULL', 'PIPE', 'CalledProcessError', 'STDOUT'):
@@ -1825,6 +1828,12 @@ class NondetInventory:
             if users_scoped:
                 return 'debUnpack', 'private temporary directory (name never printed: fake_root / scoped tempdir)'
             return 'other', 'file-system enumeration / temporary names outside check_deb'
+        if cat == 'tty':
+            # what `sys.stdout` IS depends on where the code runs: check_file_s swaps it for a StringIO in pool workers, so a probe on the
+            # per-file path answers differently for -j 1 and -j N; on the start-up path it is asked once, of the process's real stdout
+            if f.path in ('startup', 'import'):
+                return 'terminalProbe', 'property of the real stdout, read once on the start-up path (before any redirect)'
+            return 'terminalProbePerFile', 'property of sys.stdout read on the per-file path: inside check_file_s (pool workers) sys.stdout is a StringIO'
         if cat == 'env':
             if f.path in ('startup', 'import'):
                 return 'startupEnvironment', 'environment / terminal read once at start-up'
